@@ -382,7 +382,7 @@ mod inner {
     };
 
     /// Plain wrapper around `Vec<f64>` because the `raw_strains` feature
-    /// is disabled.
+    /// is enabled. All entries must be non-negative.
     #[derive(Clone)]
     pub struct StrainsVec {
         inner: Vec<f64>,
@@ -400,7 +400,14 @@ mod inner {
         }
 
         pub fn push(&mut self, value: f64) {
-            self.inner.push(value);
+            // All entries must be non-negative; anything else counts as zero
+            // just like in the compact variant so that this feature never
+            // changes a result.
+            if value.to_bits() > 0 && value.is_sign_positive() {
+                self.inner.push(value);
+            } else {
+                self.inner.push(0.0);
+            }
         }
 
         pub fn sort_desc(&mut self) {
